@@ -498,10 +498,16 @@ def run_compile(case, st):
     labs = case['labels']
     try:
         os.chdir(tmp)
-        with open(case['provider'] + '.tex', 'w') as f:
+        # a third of the pairs keeps its sources in a sub-directory and is compiled from the directory above it, the provider by
+        # Compile.run itself (what `plastex src/name.tex` does): the label data belongs to the directory the program runs in
+        sub = 'src/' if common.case_hash(case)[0] % 3 == 0 else ''
+        if sub:
+            os.makedirs('src')
+            st.counters['compiled_from_parent_directory'] += 1
+        with open(sub + case['provider'] + '.tex', 'w') as f:
             f.write('\\documentclass{article}\\begin{document}' + ''.join('\\section{Zp%dy}\\label{%s} Zt%dy ' % (i, l, i) for i, l in enumerate(labs)) + '\\end{document}\n')
         own = [labs[0]] if case['shared'] else []
-        with open(case['consumer'] + '.tex', 'w') as f:
+        with open(sub + case['consumer'] + '.tex', 'w') as f:
             f.write('\\documentclass{article}\\begin{document}Zq ' + ''.join('\\section{Zc%dy}\\label{%s} ' % (i, l) for i, l in enumerate(own))
                     + ' '.join('Wq%dx \\ref{%s}' % (i, l) for i, l in enumerate(labs)) + '\\end{document}\n')
         texs = []
@@ -509,7 +515,15 @@ def run_compile(case, st):
             cfg = R.new_config({('general', 'renderer'): rn, ('files', 'log'): False})
             common.plastex_reset()
             try:
-                tex = Compile.parse(job + '.tex', cfg)
+                if sub and job == case['provider']:
+                    import contextlib, io
+                    cfg['files']['directory'] = 'out-$jobname'
+                    with contextlib.redirect_stdout(io.StringIO()):
+                        Compile.run(sub + job + '.tex', cfg)
+                    os.chdir(tmp)
+                    texs.append(None)
+                    continue
+                tex = Compile.parse(sub + job + '.tex', cfg)
                 doc = tex.ownerDocument
                 r = Compile.load_renderer(rn, cfg)
                 out = os.path.join(tmp, 'out-' + job)
